@@ -324,12 +324,19 @@ func (l *log) GetByTime(start time.Time) (message.Message, error) {
 	l.readersMu.RLock()
 	defer l.readersMu.RUnlock()
 
-	for i := len(l.readers) - 1; i >= 0; i-- {
-		rdr := l.readers[i]
+	readers := l.readers
+	for i := len(readers) - 1; i >= 0; i-- {
+		rdr := readers[i]
 
 		switch msg, err := rdr.GetByTime(ts, tctx); err {
 		case nil:
 			return msg, nil
+		case index.ErrTimeIndexEmpty:
+			// only the head can be empty, the segment before it is the last one with messages
+			if i == 0 {
+				return message.Invalid, err
+			}
+			readers = readers[:i]
 		case index.ErrTimeBeforeStart:
 			// not in this segment, try the rest
 			if i == 0 {
@@ -337,8 +344,8 @@ func (l *log) GetByTime(start time.Time) (message.Message, error) {
 			}
 		case index.ErrTimeAfterEnd:
 			// time is between end of this and begin next
-			if i < len(l.readers)-1 {
-				nextRdr := l.readers[i+1]
+			if i < len(readers)-1 {
+				nextRdr := readers[i+1]
 				return nextRdr.Get(message.OffsetOldest)
 			}
 			return message.Invalid, errTimeNotFound
